@@ -2,27 +2,28 @@ import LeptosModel.Proofs.OwnerInv
 /-!
 # Proofs/OwnerOps — every op line is a composition of core primitives (C08)
 
-`SR st st'` : the `Core` of `st'` is reachable from the `Core` of `st` by `CorePrim` steps.
-This is the single structural pass over the reactive layer and the op interpreter; every invariant
-of the primitives (Proofs/OwnerInv) therefore holds along every history (`runOps`).
+`SR a st` : the `Core` of `st` is reachable from the `Core` of `a` by `CorePrim` steps.
+This is the single structural pass over the reactive layer and the op interpreter (each lemma
+`sr_f` says: if `st` is reachable then so is `f st`); every invariant of the primitives
+(Proofs/OwnerInv) therefore holds along every history (`runOps`).
 -/
 namespace Leptos.Owner
 
-def SR (st st' : St) : Prop := CoreReach st.toCore st'.toCore
+def SR (a st : St) : Prop := CoreReach a.toCore st.toCore
 
 theorem SR.refl (st : St) : SR st st := CoreReach.refl _
 theorem SR.trans {a b c : St} (h1 : SR a b) (h2 : SR b c) : SR a c := CoreReach.trans h1 h2
-theorem SR.react {st st' : St} (h : st'.toCore = st.toCore) : SR st st' := by
-  unfold SR; rw [h]; exact CoreReach.refl _
-theorem SR.lift {st : St} {f : Core → Core} (h : CoreReach st.toCore (f st.toCore)) : SR st (st.lift f) := h
-theorem SR.prim {st : St} {f : Core → Core} (h : CorePrim st.toCore (f st.toCore)) : SR st (st.lift f) :=
-  CoreReach.single h
+/-- a change outside `Core` -/
+theorem SR.react {a st st' : St} (h : SR a st) (h' : st'.toCore = st.toCore) : SR a st' := by
+  unfold SR; rw [h']; exact h
+theorem SR.prim {a st : St} {f : Core → Core} (h : SR a st) (hp : CorePrim st.toCore (f st.toCore)) :
+    SR a (st.lift f) := CoreReach.tail h hp
 
-theorem SR.foldl {α} (f : St → α → St) (h : ∀ st a, SR st (f st a)) (l : List α) (st : St) :
-    SR st (l.foldl f st) := by
+theorem sr_foldl {α} (f : St → α → St) (hf : ∀ a st x, SR a st → SR a (f st x)) (l : List α) {a st : St}
+    (h : SR a st) : SR a (l.foldl f st) := by
   induction l generalizing st with
-  | nil => exact SR.refl _
-  | cons a l ih => exact SR.trans (h st a) (ih _)
+  | nil => exact h
+  | cons x l ih => exact ih (hf a st x h)
 
 /-! ### core composites -/
 
@@ -40,93 +41,28 @@ theorem currentOwner_lt {st : Core} {x : Nat} (h : currentOwner st = some x) : x
     · cases h
   · cases h
 
-theorem reach_newOwner (st : Core) : CoreReach st (newOwner st).1 :=
-  CoreReach.single (CorePrim.newOwnerUnder st _ false (fun _ h => currentOwner_lt h))
+theorem CR.newOwner {a b : Core} (h : CoreReach a b) : CoreReach a (newOwner b).1 :=
+  .tail h (CorePrim.newOwnerUnder b _ false (fun _ h => currentOwner_lt h))
 
-theorem reach_childOwner (st : Core) (o : Nat) : CoreReach st (childOwner st o).1 := by
-  unfold childOwner
+theorem CR.childOwner {a b : Core} (h : CoreReach a b) (o : Nat) : CoreReach a (childOwner b o).1 := by
+  unfold Leptos.Owner.childOwner
   split
   · next r hr =>
-    exact CoreReach.single (CorePrim.newOwnerUnder st _ _ (fun x h => by cases h; exact lt_of_getElem?_some hr))
-  · exact CoreReach.single (CorePrim.newOwnerUnder st _ _ (fun x h => by cases h))
+    exact .tail h (CorePrim.newOwnerUnder b _ _ (fun x h => by cases h; exact lt_of_getElem?_some hr))
+  · exact .tail h (CorePrim.newOwnerUnder b _ _ (fun x h => by cases h))
 
-theorem reach_newItem (st : Core) (v : Val) : CoreReach st (newItem st v).1 :=
-  CoreReach.single (CorePrim.newItem st v)
+theorem CR.newItem {a b : Core} (h : CoreReach a b) (v : Val) : CoreReach a (newItem b v).1 :=
+  .tail h (CorePrim.newItem b v)
 
-theorem reach_newStored (st : Core) (v : Int) : CoreReach st (newStored st v) := by
-  unfold newStored
-  exact CoreReach.tail (reach_newItem st _) (CorePrim.addItemHandle _ _)
-
-theorem reach_cleanupOwner (st : Core) (o : Nat) : CoreReach st (cleanupOwner st o) :=
-  CoreReach.single (CorePrim.pass st _ rfl)
-theorem reach_dropOwner (st : Core) (o : Nat) : CoreReach st (dropOwner st o) :=
-  CoreReach.single (CorePrim.pass st _ rfl)
-theorem reach_disposeKey (st : Core) (k : Key) : CoreReach st (disposeKey st k) :=
-  CoreReach.single (CorePrim.pass st _ rfl)
-theorem reach_pushCur (st : Core) (o : Nat) : CoreReach st (pushCur st o) :=
-  CoreReach.single (CorePrim.setCur st _)
-theorem reach_popCur (st : Core) (n : Nat) : CoreReach st (popCur st n) :=
-  CoreReach.single (CorePrim.setCur st _)
-theorem reach_pushAll (st : Core) (os : List Nat) : CoreReach st (pushAll st os) :=
-  CoreReach.single (CorePrim.setCur st _)
-
-/-! ### reactive layer -/
-
-theorem SR.clearSources (st : St) (me : Sub) (l : List Nat) : SR st (clearSources st me l) := SR.react rfl
-
-theorem SR.addSource (st : St) (me : Sub) (s : Nat) : SR st (addSource st me s) := by
-  unfold Leptos.Owner.addSource
-  split
-  · split <;> exact SR.react rfl
-  · split <;> exact SR.react rfl
-
-theorem SR.readSig (st : St) (s : Nat) : SR st (readSig st s) := by
-  unfold Leptos.Owner.readSig
-  split
-  · split
-    · simp only
-      split
-      · split
-        · refine SR.trans (b := { st with acc := _, sigs := _ }) (SR.react rfl) (SR.addSource _ _ _)
-        · exact SR.react rfl
-      · exact SR.react rfl
-    · exact SR.refl _
-  · exact SR.refl _
-
-theorem SR.newEffect (st : St) (b : Nat) : SR st (newEffect st b) := by
-  unfold Leptos.Owner.newEffect
-  exact CoreReach.trans (reach_newOwner _) (reach_newItem _ _)
-
-theorem SR.newMemo (st : St) (b : Nat) : SR st (newMemo st b) := by
-  unfold Leptos.Owner.newMemo
-  exact CoreReach.trans (reach_newOwner _) (reach_newItem _ _)
-
-theorem SR.newSignal (st : St) (v : Int) : SR st (newSignal st v) := by
-  unfold Leptos.Owner.newSignal
-  exact reach_newItem _ _
-
-theorem SR.newOwnerHandle (st : St) : SR st (newOwnerHandle st) := by
-  unfold Leptos.Owner.newOwnerHandle
-  exact reach_newOwner _
-
-theorem SR.execCreate (st : St) (op : BOp) : SR st (execCreate st op) := by
-  cases op with
-  | read s => exact SR.readSig st s
-  | get m => exact SR.refl _
-  | cleanup tag => exact SR.prim (CorePrim.regCleanup _ _ _)
-  | nested tag => exact SR.prim (CorePrim.regCleanup _ _ _)
-  | item v => exact SR.lift (reach_newStored _ _)
-  | sig v => exact SR.newSignal st v
-  | provide ty v => exact SR.prim (CorePrim.provide _ _ _)
-  | use ty => exact SR.prim (CorePrim.useCtx _ _)
-  | take ty => exact SR.prim (CorePrim.takeCtx _ _)
-  | effect b => exact SR.newEffect st b
-  | memo b => exact SR.newMemo st b
-  | newOwner => exact SR.newOwnerHandle st
+theorem CR.newStored {a b : Core} (h : CoreReach a b) (v : Int) : CoreReach a (newStored b v) := by
+  unfold Leptos.Owner.newStored
+  exact .tail (CR.newItem h _) (CorePrim.addItemHandle _ _)
 
 theorem CR.popCur {a b : Core} (h : CoreReach a b) (n : Nat) : CoreReach a (popCur b n) :=
   .tail h (.setCur _ _)
 theorem CR.pushCur {a b : Core} (h : CoreReach a b) (o : Nat) : CoreReach a (pushCur b o) :=
+  .tail h (.setCur _ _)
+theorem CR.pushAll {a b : Core} (h : CoreReach a b) (os : List Nat) : CoreReach a (pushAll b os) :=
   .tail h (.setCur _ _)
 theorem CR.logEv {a b : Core} (h : CoreReach a b) (e : Ev) (he : e.isC = false) : CoreReach a (logEv b e) :=
   .tail h (.logEv _ _ he)
@@ -134,188 +70,257 @@ theorem CR.cleanupOwner {a b : Core} (h : CoreReach a b) (o : Nat) : CoreReach a
   .tail h (.pass _ _ rfl)
 theorem CR.dropOwner {a b : Core} (h : CoreReach a b) (o : Nat) : CoreReach a (dropOwner b o) :=
   .tail h (.pass _ _ rfl)
+theorem CR.disposeKey {a b : Core} (h : CoreReach a b) (k : Key) : CoreReach a (disposeKey b k) :=
+  .tail h (.pass _ _ rfl)
 
-theorem SR.runMemo (st : St) (m : Nat) : SR st (runMemo st m) := by
-  unfold Leptos.Owner.runMemo
+/-! ### reactive layer -/
+
+theorem sr_clearSources {a st : St} (h : SR a st) (me : Sub) (l : List Nat) : SR a (clearSources st me l) :=
+  h.react rfl
+
+theorem sr_addSource {a st : St} (h : SR a st) (me : Sub) (s : Nat) : SR a (addSource st me s) := by
+  unfold addSource
   split
-  · exact SR.refl _
+  · split
+    · exact h.react rfl
+    · exact h
+  · split
+    · exact h.react rfl
+    · exact h
+
+theorem sr_readSig {a st : St} (h : SR a st) (s : Nat) : SR a (readSig st s) := by
+  unfold readSig
+  split
+  · split
+    · simp only
+      split
+      · split
+        · refine sr_addSource ?_ _ _
+          exact h.react rfl
+        · exact h.react rfl
+      · exact h.react rfl
+    · exact h
+  · exact h
+
+theorem sr_newEffect {a st : St} (h : SR a st) (b : Nat) : SR a (newEffect st b) := by
+  unfold newEffect
+  exact CR.newItem (CR.newOwner h) _
+
+theorem sr_newMemo {a st : St} (h : SR a st) (b : Nat) : SR a (newMemo st b) := by
+  unfold newMemo
+  exact CR.newItem (CR.newOwner h) _
+
+theorem sr_newSignal {a st : St} (h : SR a st) (v : Int) : SR a (newSignal st v) := by
+  unfold newSignal
+  exact CR.newItem h _
+
+theorem sr_newOwnerHandle {a st : St} (h : SR a st) : SR a (newOwnerHandle st) := by
+  unfold newOwnerHandle
+  exact CR.newOwner h
+
+theorem sr_execCreate (a st : St) (op : BOp) (h : SR a st) : SR a (execCreate st op) := by
+  cases op with
+  | read s => exact sr_readSig h s
+  | get m => exact h
+  | cleanup tag => exact h.prim (CorePrim.regCleanup _ _ _)
+  | nested tag => exact h.prim (CorePrim.regCleanup _ _ _)
+  | item v => exact CR.newStored h _
+  | sig v => exact sr_newSignal h v
+  | provide ty v => exact h.prim (CorePrim.provide _ _ _)
+  | use ty => exact h.prim (CorePrim.useCtx _ _)
+  | take ty => exact h.prim (CorePrim.takeCtx _ _)
+  | effect b => exact sr_newEffect h b
+  | memo b => exact sr_newMemo h b
+  | newOwner => exact sr_newOwnerHandle h
+
+theorem sr_runMemo {a st : St} (h : SR a st) (m : Nat) : SR a (runMemo st m) := by
+  unfold runMemo
+  split
+  · exact h
   · next mr _ =>
     simp only
-    have key : ∀ (body : List BOp) (S0 : St), S0.toCore = logEv (pushCur (cleanupOwner st.toCore mr.owner) mr.owner) (Ev.m m) →
-        CoreReach st.toCore (popCur (List.foldl execCreate S0 body).toCore 1) := by
+    have key : ∀ (body : List BOp) (S0 : St),
+        S0.toCore = logEv (pushCur (cleanupOwner st.toCore mr.owner) mr.owner) (Ev.m m) →
+        CoreReach a.toCore (popCur (List.foldl execCreate S0 body).toCore 1) := by
       intro body S0 h0
-      refine CR.popCur (CoreReach.trans ?_ (SR.foldl _ SR.execCreate body S0)) 1
-      rw [h0]
-      exact CR.logEv (CR.pushCur (CR.cleanupOwner (CoreReach.refl _) _) _) _ rfl
+      refine CR.popCur (sr_foldl _ sr_execCreate body (a := a) (st := S0) ?_) 1
+      unfold SR; rw [h0]
+      exact CR.logEv (CR.pushCur (CR.cleanupOwner h _) _) _ rfl
     split
     · exact key _ _ rfl
     · exact key _ _ rfl
 
-theorem SR.getMemo (st : St) (m : Nat) : SR st (getMemo st m) := by
-  unfold Leptos.Owner.getMemo
+theorem sr_getMemo {a st : St} (h : SR a st) (m : Nat) : SR a (getMemo st m) := by
+  unfold getMemo
   split
   · simp only
-    have key : ∀ S1 : St, SR st S1 → ∀ v a, SR st (St.lift { S1 with acc := a } (logEv · (Ev.g m v))) := by
-      intro S1 h1 v a
+    have key : ∀ S1 : St, SR a S1 → ∀ v x, SR a (St.lift { S1 with acc := x } (logEv · (Ev.g m v))) := by
+      intro S1 h1 v x
       exact CR.logEv h1 _ rfl
     apply key
     split
     · split
-      · exact SR.runMemo _ _
-      · exact SR.refl _
-    · exact SR.refl _
-  · exact SR.prim (CorePrim.logEv _ _ rfl)
+      · exact sr_runMemo h _
+      · exact h
+    · exact h
+  · exact h.prim (CorePrim.logEv _ _ rfl)
 
-theorem SR.execBOp (st : St) (op : BOp) : SR st (execBOp st op) := by
-  unfold Leptos.Owner.execBOp
+theorem sr_execBOp (a st : St) (op : BOp) (h : SR a st) : SR a (execBOp st op) := by
+  unfold execBOp
   split
   · split
-    · exact SR.refl _
-    · exact SR.getMemo _ _
-  · exact SR.execCreate _ _
+    · exact h
+    · exact sr_getMemo h _
+  · exact sr_execCreate _ _ _ h
 
-theorem SR.endTask (st : St) (e : Nat) : SR st (endTask st e) := by
-  unfold Leptos.Owner.endTask
+theorem sr_endTask {a st : St} (h : SR a st) (e : Nat) : SR a (endTask st e) := by
+  unfold endTask
   split
-  · next er _ => exact CR.dropOwner (CoreReach.refl _) er.owner
-  · exact SR.refl _
+  · next er _ => exact CR.dropOwner h er.owner
+  · exact h
 
-theorem SR.runEffect (st : St) (e : Nat) (er : EffRec) : SR st (runEffect st e er) := by
-  unfold Leptos.Owner.runEffect
+theorem sr_runEffect {a st : St} (h : SR a st) (e : Nat) (er : EffRec) : SR a (runEffect st e er) := by
+  unfold runEffect
   simp only
-  have key : ∀ (body : List BOp) (S0 : St), S0.toCore = logEv (pushCur (cleanupOwner st.toCore er.owner) er.owner) (Ev.r e) →
-      ∀ x, CoreReach st.toCore (popCur (logEv (List.foldl execBOp S0 body).toCore (Ev.s e x)) 1) := by
+  have key : ∀ (body : List BOp) (S0 : St),
+      S0.toCore = logEv (pushCur (cleanupOwner st.toCore er.owner) er.owner) (Ev.r e) →
+      ∀ x, CoreReach a.toCore (popCur (logEv (List.foldl execBOp S0 body).toCore (Ev.s e x)) 1) := by
     intro body S0 h0 x
-    refine CR.popCur (CR.logEv (CoreReach.trans ?_ (SR.foldl _ SR.execBOp body S0)) _ rfl) 1
-    rw [h0]
-    exact CR.logEv (CR.pushCur (CR.cleanupOwner (CoreReach.refl _) _) _) _ rfl
+    refine CR.popCur (CR.logEv (sr_foldl _ sr_execBOp body (a := a) (st := S0) ?_) _ rfl) 1
+    unfold SR; rw [h0]
+    exact CR.logEv (CR.pushCur (CR.cleanupOwner h _) _) _ rfl
   exact key _ _ rfl _
 
-theorem SR.pollEff (st : St) (e : Nat) : SR st (pollEff st e) := by
-  unfold Leptos.Owner.pollEff
+theorem sr_pollEff {a st : St} (h : SR a st) (e : Nat) : SR a (pollEff st e) := by
+  unfold pollEff
   split
-  · exact SR.refl _
+  · exact h
   · next er _ =>
     split
-    · exact SR.refl _
+    · exact h
     · split
-      · exact SR.endTask _ _
+      · exact sr_endTask h _
       · split
-        · exact SR.react rfl
-        · simp only
-          split
-          · exact SR.react rfl
+        · exact h.react rfl
+        · split
+          · exact h.react rfl
           · split
-            · exact SR.trans (SR.runEffect _ _ _) (SR.endTask _ _)
-            · exact SR.runEffect _ _ _
+            · exact sr_endTask (sr_runEffect h _ _) _
+            · exact sr_runEffect h _ _
 
-theorem SR.pollNth (st : St) (i : Nat) : SR st (pollNth st i) := by
-  unfold Leptos.Owner.pollNth
+theorem sr_pollNth {a st : St} (h : SR a st) (i : Nat) : SR a (pollNth st i) := by
+  unfold pollNth
   simp only
   split
-  · exact SR.pollEff _ _
-  · exact SR.refl _
+  · exact sr_pollEff h _
+  · exact h
 
-theorem SR.runIdle (n : Nat) (st : St) : SR st (runIdle n st) := by
+theorem sr_runIdle (n : Nat) {a st : St} (h : SR a st) : SR a (runIdle n st) := by
   induction n generalizing st with
-  | zero => exact SR.refl _
+  | zero => exact h
   | succ n ih =>
-    simp only [Leptos.Owner.runIdle]
+    simp only [runIdle]
     split
-    · exact SR.refl _
-    · exact SR.trans (SR.pollNth _ _) (ih _)
+    · exact h
+    · exact ih (sr_pollNth h _)
 
-theorem SR.markSub (st : St) (s : Sub) : SR st (markSub st s) := by
-  unfold Leptos.Owner.markSub
+theorem sr_markSub (a st : St) (s : Sub) (h : SR a st) : SR a (markSub st s) := by
+  unfold markSub
   split
   · split
-    · split <;> exact SR.react rfl
-    · exact SR.refl _
+    · split
+      · exact h.react rfl
+      · exact h
+    · exact h
   · split
-    · split <;> exact SR.react rfl
-    · exact SR.refl _
+    · split
+      · exact h.react rfl
+      · exact h
+    · exact h
 
-theorem SR.setSig (st : St) (s : Nat) (v : Int) : SR st (setSig st s v) := by
-  unfold Leptos.Owner.setSig
+theorem sr_setSig {a st : St} (h : SR a st) (s : Nat) (v : Int) : SR a (setSig st s v) := by
+  unfold setSig
   split
   · split
-    · exact SR.trans (SR.react rfl) (SR.foldl _ SR.markSub _ _)
-    · exact SR.refl _
-  · exact SR.refl _
+    · exact sr_foldl _ sr_markSub _ (h.react rfl)
+    · exact h
+  · exact h
 
-theorem SR.dropHandle (st : St) (h : Nat) : SR st (dropHandle st h) := by
-  unfold Leptos.Owner.dropHandle
+theorem sr_dropHandle (a st : St) (hd : Nat) (h : SR a st) : SR a (dropHandle st hd) := by
+  unfold dropHandle
   split
-  · next o _ => exact CR.dropOwner (CoreReach.refl _) o
-  · exact SR.refl _
+  · next o _ => exact CR.dropOwner (h.react (st := st) rfl) o
+  · exact h
 
 /-- every op line is a composition of core primitives -/
-theorem SR.stepOp {st st' : St} {op : Op} (h : stepOp st op = some st') : SR st st' := by
+theorem sr_stepOp {a st st' : St} {op : Op} (h0 : SR a st) (h : stepOp st op = some st') : SR a st' := by
   cases op with
-  | body b => simp only [Leptos.Owner.stepOp, Option.some.injEq] at h; subst h; exact SR.react rfl
-  | act ins a =>
-    simp only [Leptos.Owner.stepOp] at h
+  | body b => simp only [stepOp, Option.some.injEq] at h; subst h; exact h0.react rfl
+  | act ins x =>
+    simp only [stepOp] at h
     split at h
     · cases h
     · next os _ =>
-      cases a with
+      cases x with
       | x b =>
         simp only [Option.map_some, Option.some.injEq] at h; subst h
-        exact SR.trans (SR.lift (reach_pushAll _ os))
-          (SR.trans (SR.execBOp _ b) (SR.lift (reach_popCur _ _)))
+        exact CR.popCur (sr_execBOp a (st.lift (pushAll · os)) b (CR.pushAll h0 os)) _
       | cleanup hh =>
         simp only at h
         split at h
         · next o _ =>
           simp only [Option.map_some, Option.some.injEq] at h; subst h
-          exact SR.trans (SR.lift (reach_pushAll _ os))
-            (SR.trans (SR.lift (reach_cleanupOwner _ o)) (SR.lift (reach_popCur _ _)))
+          exact CR.popCur (CR.cleanupOwner (CR.pushAll h0 os) o) _
         · simp at h
   | child hh =>
-    simp only [Leptos.Owner.stepOp] at h
+    simp only [stepOp] at h
     split at h
     · next o _ =>
       simp only [Option.some.injEq] at h; subst h
-      exact reach_childOwner _ _
+      exact CR.childOwner h0 _
     · cases h
   | drop hh =>
-    simp only [Leptos.Owner.stepOp] at h
+    simp only [stepOp] at h
     split at h
-    · simp only [Option.some.injEq] at h; subst h; exact SR.dropHandle _ _
+    · simp only [Option.some.injEq] at h; subst h; exact sr_dropHandle _ _ _ h0
     · cases h
   | dispose k i =>
-    simp only [Leptos.Owner.stepOp] at h
+    simp only [stepOp] at h
     split at h
-    · next key _ => simp only [Option.some.injEq] at h; subst h; exact SR.lift (reach_disposeKey _ key)
+    · next key _ => simp only [Option.some.injEq] at h; subst h; exact CR.disposeKey h0 key
     · cases h
   | set s v =>
-    simp only [Leptos.Owner.stepOp] at h
+    simp only [stepOp] at h
     split at h
-    · simp only [Option.some.injEq] at h; subst h; exact SR.setSig _ _ _
+    · simp only [Option.some.injEq] at h; subst h; exact sr_setSig h0 _ _
     · cases h
   | pause hh =>
-    simp only [Leptos.Owner.stepOp] at h
+    simp only [stepOp] at h
     split at h
-    · simp only [Option.some.injEq] at h; subst h; exact SR.prim (CorePrim.setPaused _ _ _)
+    · simp only [Option.some.injEq] at h; subst h; exact h0.prim (CorePrim.setPaused _ _ _)
     · cases h
   | resume hh =>
-    simp only [Leptos.Owner.stepOp] at h
+    simp only [stepOp] at h
     split at h
-    · simp only [Option.some.injEq] at h; subst h; exact SR.prim (CorePrim.setPaused _ _ _)
+    · simp only [Option.some.injEq] at h; subst h; exact h0.prim (CorePrim.setPaused _ _ _)
     · cases h
-  | poll i => simp only [Leptos.Owner.stepOp, Option.some.injEq] at h; subst h; exact SR.pollNth _ _
-  | idle => simp only [Leptos.Owner.stepOp, Option.some.injEq] at h; subst h; exact SR.runIdle _ _
+  | poll i => simp only [stepOp, Option.some.injEq] at h; subst h; exact sr_pollNth h0 _
+  | idle => simp only [stepOp, Option.some.injEq] at h; subst h; exact sr_runIdle _ h0
   | «end» =>
-    simp only [Leptos.Owner.stepOp, Option.some.injEq] at h; subst h
-    exact SR.trans (SR.foldl _ SR.dropHandle _ _) (SR.runIdle _ _)
+    simp only [stepOp, Option.some.injEq] at h; subst h
+    exact sr_runIdle _ (sr_foldl _ sr_dropHandle _ h0)
 
-theorem SR.runOps (st : St) (ops : List Op) : SR st (runOps st ops) := by
+theorem sr_runOps {a st : St} (h : SR a st) (ops : List Op) : SR a (runOps st ops) := by
   induction ops generalizing st with
-  | nil => exact SR.refl _
+  | nil => exact h
   | cons op rest ih =>
-    simp only [Leptos.Owner.runOps]
-    cases h : Leptos.Owner.stepOp st op with
-    | none => simpa using ih st
-    | some st' => exact SR.trans (SR.stepOp h) (by simpa using ih st')
+    simp only [runOps]
+    cases hs : stepOp st op with
+    | none => simpa using ih h
+    | some st' => simpa using ih (sr_stepOp h hs)
+
+/-- the core of every state of every history is reachable from the initial core -/
+theorem reach_runOps (ops : List Op) : CoreReach ({} : St).toCore (runOps {} ops).toCore :=
+  sr_runOps (SR.refl _) ops
 
 end Leptos.Owner
